@@ -84,7 +84,7 @@ func H_C14_iter() {
 		if step == 0 && rt.Param(1) >= 0 {
 			i, op = rt.Param(1), rt.Param(2) // shard: first operation fixed by the job
 		} else {
-			i, op = rt.Choice(2), rt.Choice(4)
+			i, op = rt.Choice(2), rt.Choice(5)
 		}
 		switch op {
 		case 0: // next
@@ -109,16 +109,27 @@ func H_C14_iter() {
 			h.Set("a", object.NewPanInt(n0))
 			h.EvalNoPanic(fmt.Sprintf(`it%d := gen.new(a)`, i))
 			st[i] = &c14State{n0}
+		case 4: // a fresh iterator made from the OTHER iterator (fresh, advanced or exhausted) replaces it_i
+			n0 := c14Small(-3, 5)
+			if narrow {
+				rt.Assume(n0 >= -1 && n0 <= 2)
+			}
+			h.Set("a", object.NewPanInt(n0))
+			h.EvalNoPanic(fmt.Sprintf(`it%d := it%d.new(a)`, i, 1-i))
+			st[i] = &c14State{n0}
 		}
 	}
 	// final cross-check: both iterators still agree with their own models
-	for i := 0; i < 2; i++ {
-		res := h.EvalNoPanic(fmt.Sprintf(`it%d.next`, i))
-		v, more := st[i].next(lim, d)
-		if more {
-			rt.Assert(isInt(res, v), "iterators made from one literal never share progress")
-		} else {
-			rt.Assert(isErrKind(res, object.StopIterErr), "iterators made from one literal never share progress")
+	// (two rounds: it0, it1, it0, it1 — progress made by one must not show in the other)
+	for round := 0; round < 2; round++ {
+		for i := 0; i < 2; i++ {
+			res := h.EvalNoPanic(fmt.Sprintf(`it%d.next`, i))
+			v, more := st[i].next(lim, d)
+			if more {
+				rt.Assert(isInt(res, v), "iterators made from one literal never share progress")
+			} else {
+				rt.Assert(isErrKind(res, object.StopIterErr), "iterators made from one literal never share progress")
+			}
 		}
 	}
 }
